@@ -9,7 +9,7 @@ let hex s = int_of_string ("0x" ^ s)
 let ust_name = function
   | UNone -> "None" | UCreated -> "Created" | UQueued -> "Queued" | UPopped -> "Popped" | UChecked -> "Checked"
   | URunning -> "Running" | UFinished -> "Finished" | UCbS (_, n) -> "Cb." ^ string_of_int (int_of_nat n)
-  | UBlocked -> "Blocked" | UResuming -> "Resuming" | UCancelling -> "Cancelling" | UTerm -> "Term" | UFreed -> "Freed"
+  | UBlocked -> "Blocked" | UHandoff -> "Handoff" | UResuming -> "Resuming" | UCancelling -> "Cancelling" | UTerm -> "Term" | UFreed -> "Freed"
 
 (* ---- identity maps ---- *)
 let unit_of_ptr : (int, int) Hashtbl.t = Hashtbl.create 64       (* pointer -> current model id *)
@@ -35,7 +35,7 @@ let un_tbl : (int, urec) Hashtbl.t = Hashtbl.create 256
 let po_tbl : (int, prec) Hashtbl.t = Hashtbl.create 16
 let seen_tbl : (int * int, bool) Hashtbl.t = Hashtbl.create 64
 let cur = ref { un = (fun x -> match Hashtbl.find_opt un_tbl (int_of_nat x) with Some r -> r | None -> u0);
-                po = (fun x -> match Hashtbl.find_opt po_tbl (int_of_nat x) with Some r -> r | None -> { q = []; nb = Z0 });
+                po = (fun x -> match Hashtbl.find_opt po_tbl (int_of_nat x) with Some r -> r | None -> { q = []; nb = Z0; cu = [] });
                 seen = (fun a u -> match Hashtbl.find_opt seen_tbl (int_of_nat a, int_of_nat u) with Some b -> b | None -> false) }
 let base = !cur
 let compact s units pools seens =
@@ -173,7 +173,9 @@ let () =
            apply ln desc (EReqAnd (nat_of u, nat_of (if hex b = 4 then 2 else if hex b = 2 then 1 else 0))) [u] [] []
          | "STATE", [t; v; _] -> let u = unit_id ln (hex t) in
            let was_fresh_sched = Hashtbl.mem is_sched_unit u && ((!cur).un (nat_of u)).fresh in
-           apply ln desc (EState (nat_of u, z_of_int (hex v))) [u] [] [];
+           let up = int_of_nat ((!cur).un (nat_of u)).upool in
+           let others = (match ((!cur).un (nat_of u)).cbother with Some o -> [int_of_nat o] | None -> []) in
+           apply ln desc (EState (nat_of u, z_of_int (hex v))) (u :: others) [up] [];
            (* scheduler ULTs do not run a harness function: their start is the first RUNNING store *)
            if was_fresh_sched && hex v = 1 then apply ln "sched-start" (EStart (nat_of u)) [u] [] []
          | "STLOAD", [t; site; v] -> let u = unit_id ln (hex t) in
